@@ -38,6 +38,7 @@ def strategy(draw, cells):
     # permeate values far from equilibrium so that the VALID single-condition variants return (construction, not rejection)
     c["perm"] = {"mode": "temperature", "T": draw(gen.uniform(200.0, c["T"] - 40.0)), "p": None}
     c["pp_both"] = draw(st.one_of(st.just(0.0), gen.loguniform(1e-4, 1e-2), gen.loguniform(1e-4, 1e-2)))  # 0 kPa IS a stated pressure
+    c["zero_permeances"] = draw(st.integers(0, 3)) == 0
     c["numtype"] = draw(st.sampled_from(["float", "float", "numpy.float64", "numpy.float32", "int"]))  # type of the two permeate values
     c["reuse"] = draw(st.booleans())  # process entries: the SAME Conditions object, made contradictory after a valid run
     c["lone"] = draw(st.integers(1, 2))  # which component has the single experiment without Ea (listed first or after the other)
@@ -98,8 +99,11 @@ def _entry(case, s, entry, tp, pp, mdl, mix=None, pv=None):
                     permeate_composition=build.composition(0.5, "weight"), feed_composition=comp, feed_temperature=t,
                     permeate_temperature=tp, permeate_pressure=pp, calculation_type=mdl)
     if entry == "solver":
+        extra = {}
+        if case.get("zero_permeances"):  # an impermeable membrane stated explicitly
+            extra = dict(first_component_permeance=build.permeance(0.0), second_component_permeance=build.permeance(0.0))
         return call(pv.calculate_partial_fluxes, feed_temperature=t, composition=comp, precision=prec, permeate_temperature=tp, permeate_pressure=pp,
-                    calculation_type=mdl)
+                    calculation_type=mdl, **extra)
     if entry == "permeate-composition":
         return call(pv.calculate_permeate_composition, t, comp, prec, tp, pp, mdl)
     if entry == "separation-factor":
